@@ -74,6 +74,8 @@ pub struct Built {
     pub opt_pos: OptPos,
     pub header_target: bool,
     pub opaque_target: bool,
+    /// (offset, length) of name-shaped bytes inside opaque rdata that later names may point into
+    pub opaque_spans: Vec<(usize, usize)>,
 }
 
 struct Builder<'a> {
@@ -85,6 +87,7 @@ struct Builder<'a> {
     max_chain: usize,
     header_target: bool,
     opaque_target: bool,
+    opaque_spans: Vec<(usize, usize)>,
 }
 
 const LABEL_POOL: &[&[u8]] = &[
@@ -372,6 +375,7 @@ impl<'a> Builder<'a> {
                             let labels = n.0.clone();
                             self.register(rd, &labels, &Name::root(), 0);
                             self.opaque_target = true;
+                            self.opaque_spans.push((rd, w.len()));
                             w
                         } else {
                             vec![]
@@ -496,6 +500,7 @@ pub fn gen_valid(rng: &mut Rng, cfg: &Cfg) -> Built {
         max_chain: 0,
         header_target: false,
         opaque_target: false,
+        opaque_spans: vec![],
     };
     let mut msg = Msg {
         id,
@@ -586,6 +591,7 @@ pub fn gen_valid(rng: &mut Rng, cfg: &Cfg) -> Built {
         opt_pos,
         header_target: b.header_target,
         opaque_target: b.opaque_target,
+        opaque_spans: b.opaque_spans,
     }
 }
 
